@@ -174,3 +174,31 @@ func TestC06SizeOfMissingAttribute(t *testing.T) {
 		t.Errorf("size(nosuch) > :v on an item without nosuch: res=%v err=%v crash=%v, want false", r, err, c)
 	}
 }
+
+// KF-C13-number-keys-by-text: two spellings of one number are two keys.
+func TestC13NumberKeysByText(t *testing.T) {
+	ctx := context.Background()
+	c := v2.NewClient()
+	tbl := "tbl"
+	_, err := c.CreateTable(ctx, &dynamodb.CreateTableInput{TableName: &tbl, BillingMode: v2types.BillingModePayPerRequest,
+		AttributeDefinitions: []v2types.AttributeDefinition{{AttributeName: aws.String("h"), AttributeType: v2types.ScalarAttributeTypeN}},
+		KeySchema:            []v2types.KeySchemaElement{{AttributeName: aws.String("h"), KeyType: v2types.KeyTypeHash}}})
+	if err != nil {
+		t.Fatal(err)
+	}
+	put := func(n, v string) {
+		if _, err := c.PutItem(ctx, &dynamodb.PutItemInput{TableName: &tbl, Item: map[string]v2types.AttributeValue{"h": &v2types.AttributeValueMemberN{Value: n}, "v": &v2types.AttributeValueMemberS{Value: v}}}); err != nil {
+			t.Fatal(err)
+		}
+	}
+	put("10", "first")
+	put("10.0", "second")
+	s, _ := c.Scan(ctx, &dynamodb.ScanInput{TableName: &tbl})
+	if len(s.Items) != 1 {
+		t.Errorf("the numbers 10 and 10.0 are stored as %d items", len(s.Items))
+	}
+	o, _ := c.GetItem(ctx, &dynamodb.GetItemInput{TableName: &tbl, Key: map[string]v2types.AttributeValue{"h": &v2types.AttributeValueMemberN{Value: "010"}}})
+	if len(o.Item) == 0 {
+		t.Errorf("GetItem with the spelling 010 does not find the item stored under 10")
+	}
+}
